@@ -282,8 +282,12 @@ func HostileString() *rapid.Generator[string] {
 			return string(rapid.SliceOfN(rapid.Byte(), 0, 12).Draw(t, "rawbytes"))
 		case c < 90:
 			return rapid.StringN(0, 12, -1).Draw(t, "unicode")
-		case c < 98:
+		case c < 94:
 			return rapid.SampledFrom([]string{"user", "id", "path", "method", "a", "b", "k", "v", "err", "count"}).Draw(t, "plain")
+		case c < 98:
+			// a long harmless run with one hostile piece somewhere behind it (decisions taken on a prefix must fail)
+			n := rapid.SampledFrom([]int{15, 16, 31, 32, 33, 63, 64, 65, 127, 128, 255, 256, 1023, 1024, 1025, 4096}).Draw(t, "safeRun")
+			return strings.Repeat("x", n) + rapid.SampledFrom(hostilePieces).Draw(t, "piece") + strings.Repeat("y", rapid.IntRange(0, 3).Draw(t, "tail"))
 		default:
 			unit := rapid.SampledFrom([]string{"x", "\"", "\\", "\n", "é", "\xff", " ", "a=b "}).Draw(t, "unit")
 			size := rapid.SampledFrom([]int{1000, 17000, 70000}).Draw(t, "size")
